@@ -61,7 +61,7 @@ RULES = {
 }
 CLASH = [L("a/"), W("x", "int")]          # same pattern as a/:x, other filter -> rejected when a/:x is in the tree
 SYNTAX_ERR = "/a/<x"
-HOOKS_U = {"H:a": [L("a")], "H:a/:x": [L("a/"), W("x")], "H:h": [L("h")], "H:a/b": [L("a/b")]}
+HOOKS_U = {"H:a": [L("a")], "H:a/:x": [L("a/"), W("x")], "H:h": [L("h")], "H:a/b": [L("a/b")], "H:a/": [L("a/")]}
 PREFIXES = ["/a/b*", "/a*", "/a/*", "/h*"]
 
 
@@ -340,6 +340,8 @@ BASES = [
     [A("a/b", GET, "n2"), A("a/b", POST, "m2"), A("a/:x", GET, "n4")],  # names
     [A(":y"), A("a"), ("add_hook", "H:a")],
     [A(k) for k in ("a", "ab", "a/b", "a/bc", "a/:x", "a/:x/c", ":y", "h/k")],
+    [("add_hook", "H:a"), A("ab"), A("a/b")],                           # hook on a pure branch point (no route) with two literal branches
+    [("add_hook", "H:a/"), A("a/b"), A("a/:x"), A("a/bc")],             # ... with a literal and a wildcard branch
 ]
 PROBES = ["", "a", "ab", "abc", "a/", "a/b", "a/bc", "a/bx", "a/x", "a/x/c", "a/b/c", "a/bc/c", "a//c", "y", "b", "h", "h/k",
           "h/kk", "a/b/", "/a", "x/c", "a/x/d"]
